@@ -981,8 +981,8 @@ def _spark_child(inp, outp):
     jobs = pickle.load(open(inp, "rb"))
     # the hand-written level / rule SQL of c02, c03, c04 quotes identifiers with double quotes — a string literal in Spark SQL: same text with backticks
     lv, ru = c02.level_sql, c03.rule_sql
-    c02.level_sql = lambda col, l: lv(col, l).replace('"', "`")
-    c03.rule_sql = lambda case, cols: ru(case, cols).replace('"', "`")
+    c02.level_sql = lambda *a, **k: lv(*a, **k).replace('"', "`")
+    c03.rule_sql = lambda *a, **k: ru(*a, **k).replace('"', "`")
     out = []
     for job in jobs:
         try:
